@@ -176,7 +176,9 @@ func sanitizeExternalIPs(ips []string) ([]string, error) {
 		sanitized = append(sanitized, trimmed)
 	}
 
-	if len(sanitized) == 0 {
+	// An empty list is the documented drop (replace) / no-op (append) rule;
+	// a list made only of blank entries is still a mistake.
+	if len(sanitized) == 0 && len(ips) > 0 {
 		return nil, ErrInvalidNAT1To1IPMapping
 	}
 
